@@ -21,6 +21,7 @@ func init() {
 type zzC11Obj struct {
 	Count int64
 	Name  string
+	Meta  map[string]interface{}
 }
 
 var zzC11Scripts = []string{
@@ -30,6 +31,8 @@ var zzC11Scripts = []string{
 	"n = n + 1; if (len(Name) > 2) { return between(Count, 1, 5); } return lower(Name) == \"bo\";",
 	"n += 1; foreach c in Name { if (c == \"e\") { return true; } } return false;",
 	"function f(x) { return x * 2; } n = n + 1; return f(Count) > 6 && Name in [\"steve\", \"bob\"];",
+	"n = n + 1; h = {\"lim\": 3, Name: Count}; return h[Name] > h[\"lim\"];",
+	"n = n + 1; return Meta[\"count\"] > 3 && len(keys(Meta)) == 2;",
 }
 
 // the verdict a sequential run gives (independent of n for these scripts,
@@ -54,6 +57,8 @@ func zzC11Want(k int, o zzC11Obj) (bool, bool) {
 		return false, true
 	case 5:
 		return o.Count*2 > 6 && (o.Name == "steve" || o.Name == "bob"), true
+	case 6, 7:
+		return o.Count > 3, true
 	}
 	return false, false // depends on the order of the calls
 }
@@ -77,7 +82,7 @@ func ZZ_C11_SharedEvaluator(sv *zzsv.T) {
 		c := sv.Int64("Count")
 		sv.Assume(c >= 0)
 		sv.Assume(c <= 9)
-		objs[i] = zzC11Obj{Count: c, Name: names[i]}
+		objs[i] = zzC11Obj{Count: c, Name: names[i], Meta: map[string]interface{}{"count": c, "name": names[i]}}
 		sv.Go(func() {
 			v, err := e.Run(objs[i])
 			verdict[i] = v
@@ -112,7 +117,7 @@ func ZZ_C11_SeparateEvaluators(sv *zzsv.T) {
 		c := sv.Int64("Count")
 		sv.Assume(c >= 0)
 		sv.Assume(c <= 9)
-		objs[i] = zzC11Obj{Count: c, Name: names[i]}
+		objs[i] = zzC11Obj{Count: c, Name: names[i], Meta: map[string]interface{}{"count": c, "name": names[i]}}
 		sv.Go(func() {
 			e := New(zzC11Scripts[k])
 			e.SetVariable("n", &object.Integer{Value: 0})
